@@ -52,6 +52,7 @@ class WorkerProc:
         env["PYTESTARCH_SRC"] = SRC
         self.hashseed = hashseed
         self.history = []  # plan indices executed by this interpreter, in order
+        self.batches = []  # the same, as the requests were sent (one list per request)
         self.proc = subprocess.Popen(
             [PY, "-X", "faulthandler", WORKER], stdin=subprocess.PIPE, stdout=subprocess.PIPE,
             stderr=subprocess.PIPE, env=env, text=True, bufsize=1, cwd=HERE)
@@ -222,6 +223,27 @@ def history_violations(plans, hashseed):
     return {v["sig"]: v for v in last["violations"]}
 
 
+def request_history_violations(prop, seed, batches, hashseed):
+    """Re-send the very requests an interpreter received (same plan indices, same request
+    boundaries, same hash seed) to a fresh interpreter; in-process violations of the last
+    request.  Used for violations that depend on where the allocator places objects (a cache
+    keyed by id() of a dead object): the explicit-plan replay allocates differently."""
+    w = WorkerProc(hashseed)
+    try:
+        last = None
+        for b in batches:
+            last = w.request({"t": "gen", "prop": prop, "seed": seed, "indices": b})["results"]
+    finally:
+        w.close()
+    out = {}
+    for r in last or []:
+        for v in r["violations"]:
+            v = dict(v)
+            v["plan_index"] = r["index"]
+            out.setdefault(v["sig"], v)
+    return out
+
+
 def minimise_history_violation(plans, hashseed, sig, budget_s=180):
     t0 = time.time()
     tests = 0
@@ -333,7 +355,7 @@ def _units(plan):
     objs = []
     for c, ops in enumerate(plan["clients"]):
         for j, op in enumerate(ops):
-            if op["op"] in ("apply", "str", "getitem", "modules", "scan"):
+            if op["op"] in ("apply", "str", "getitem", "modules", "scan", "drop"):
                 units.append(("op", c, j))
             elif op["op"] == "new" and op["obj"] not in objs:
                 objs.append(op["obj"])
@@ -572,6 +594,7 @@ class Run:
         self.hashseeds_used = []
         self.canaries = set()
         self.histories = {}  # (slot, generation) -> list of plan indices that worker executed
+        self.batch_histories = {}  # (slot, generation) -> the same, request by request
 
     def tasks_for_slot(self, slot):
         nb = (self.n_plans + self.batch - 1) // self.batch
@@ -601,6 +624,7 @@ class Run:
                     self.hashseeds_used.append(hs)
                     self.canaries.add(tuple(worker.hello["canary"]))
                     self.histories[(slot, gen)] = worker.history
+                    self.batch_histories[(slot, gen)] = worker.batches
                 if r % 2 == 1:
                     # replicas walk a batch in opposite directions, so that the same plan is
                     # met after different predecessors in the two interpreters
@@ -609,6 +633,7 @@ class Run:
                 resp = worker.request({"t": "gen", "prop": self.prop, "seed": self.seed,
                                        "indices": indices})
                 worker.history.extend(indices)
+                worker.batches.append(list(indices))
                 done += 1
                 self.q.put(("res", b, r, worker.hashseed, resp["results"], (slot, gen), pos))
         except HarnessError as e:
@@ -722,6 +747,7 @@ class Run:
             "budget_exhausted": wall > self.budget,
             "cover": cover, "cross_seed_divergences": cross_seed_divergences,
             "i5_candidates": i5_candidates, "histories": self.histories,
+            "batch_histories": self.batch_histories,
             "iso_pairs_compared": len(iso_seen), "det_sample": det_sample,
         }
 
@@ -732,6 +758,17 @@ def write_replay(prop, seed, index, plan, hashseeds, sig, detail, history=None, 
     path = os.path.join(HERE, "replays", name)
     doc = {"property": prop, "seed": seed, "index": index, "signature": sig,
            "hash_seeds": hashseeds, "detail": detail}
+    if history is not None and expect == "violation-requests":
+        doc["kind"] = "requests"
+        doc["batches"] = history
+        doc["how"] = ("send plan indices `batches` (regenerated from seed and index), request by "
+                      "request, to one fresh interpreter with PYTHONHASHSEED = hash_seeds[0]; the last "
+                      "request shows the violation `signature`.  It depends on object addresses "
+                      "(id() of a dead object re-used), which follow the allocation pattern, so the "
+                      "requests are replayed verbatim rather than as explicit plans")
+        with open(path, "w") as fh:
+            json.dump(doc, fh, indent=1, sort_keys=True)
+        return path
     if history is not None:
         doc["kind"] = "history"
         doc["plans"] = history
@@ -752,6 +789,15 @@ def write_replay(prop, seed, index, plan, hashseeds, sig, detail, history=None, 
 def replay(path):
     with open(path) as fh:
         rp = json.load(fh)
+    if rp.get("kind") == "requests":
+        got = request_history_violations(rp["property"], rp["seed"], rp["batches"], rp["hash_seeds"][0])
+        if rp["signature"] in got:
+            print(f"reproduced: {rp['signature']} (request {len(rp['batches'])} of one interpreter)")
+            print(json.dumps(got[rp["signature"]], indent=1, sort_keys=True)[:4000])
+            print(f"VIOLATION property={rp['property']} replay={path}")
+            return EXIT_VIOLATION
+        print(f"not reproduced: expected {rp['signature']}, got {sorted(got)}")
+        return EXIT_OK
     if rp.get("kind") == "history" and rp.get("expect") == "violation":
         got = history_violations(rp["plans"], rp["hash_seeds"][0])
         if rp["signature"] in got:
@@ -885,10 +931,40 @@ def check(prop, tier, seed):
                     if hist and hist[where["pos"]] == cand.index:
                         hplans = [_g.generate(prop, seed, i) for i in hist[: where["pos"] + 1]]
                     if not hplans or sig not in history_violations(hplans, where["hs"]):
-                        print(f"HARNESS-ERROR: violation {sig} at plan {cand.index} reproduced "
-                              f"neither in a fresh interpreter (hash seed {hashseeds}) nor from "
-                              f"the interpreter's history")
-                        return EXIT_HARNESS
+                        # last resort: the very requests that interpreter received, verbatim
+                        # (object addresses - id() - follow the allocation pattern)
+                        bh = out["batch_histories"].get(tuple(where.get("wid", ()))) or []
+                        upto, n = [], 0
+                        for b in bh:
+                            upto.append(b)
+                            n += len(b)
+                            if n > where["pos"]:
+                                break
+                        got = request_history_violations(prop, seed, upto, where["hs"]) if upto else {}
+                        if sig not in got:
+                            print(f"HARNESS-ERROR: violation {sig} at plan {cand.index} reproduced "
+                                  f"neither in a fresh interpreter (hash seed {hashseeds}) nor from "
+                                  f"the interpreter's history")
+                            return EXIT_HARNESS
+                        if sig in open_sigs:
+                            known_hit.append((sig, out["sig_counts"].get(key, 0)))
+                            continue
+                        # shorten from the front while it still shows (allocation-dependent: a few tries)
+                        tests = 1
+                        while len(upto) > 1:
+                            cand_b = upto[max(1, len(upto) // 2):]
+                            tests += 1
+                            g2 = request_history_violations(prop, seed, cand_b, where["hs"])
+                            if sig in g2:
+                                upto, got = cand_b, g2
+                            else:
+                                break
+                        det = dict(got[sig])
+                        det["requests_before"] = len(upto) - 1
+                        path = write_replay(prop, seed, cand.index, None, [where["hs"]], sig, det,
+                                            history=upto, expect="violation-requests")
+                        reported.append((sig, path, tests))
+                        continue
                     if sig in open_sigs:
                         known_hit.append((sig, out["sig_counts"].get(key, 0)))
                         continue
